@@ -13,6 +13,7 @@ import Cog.Drv.MergeDrv
 import Cog.Drv.EqualsDrv
 import Cog.Drv.ValidateDrv
 import Cog.Drv.ClosedDrv
+import Cog.Drv.JsOutDrv
 import Cog.Drv.DefaultsDrv
 import Cog.Drv.PyDrv
 import Cog.Drv.BuilderSemDrv
@@ -56,6 +57,10 @@ def handleIO (line : String) : IO String := do
   | "govalidate" :: rest => govalidateLine (" ".intercalate rest)
   | "gostrict" :: rest => gostrictLine (" ".intercalate rest)
   | "c08hyp" :: rest => c08hypLine (" ".intercalate rest)
+  | "jsemit" :: rest => jsemitLine (" ".intercalate rest)
+  | "jsvalid" :: rest => jsvalidLine (" ".intercalate rest)
+  | "jshyp" :: rest => jshypLine (" ".intercalate rest)
+  | "jswf" :: rest => jswfLine (" ".intercalate rest)
   | "godefaults" :: rest => godefaultsLine (" ".intercalate rest)
   | "pydefaults" :: rest => pydefaultsLine (" ".intercalate rest)
   | "pyroundtrip" :: rest => pyroundtripLine (" ".intercalate rest)
